@@ -45,6 +45,9 @@ def scope_families():
         "tuples": [((1, 2),), ((1, "a"),), ((None,),)],
         "bool_int": [(True,), (1.5,), (0,)],
         "frozensets": [(frozenset({1}),), (frozenset({2}),), (frozenset(),)],
+        # unorderable values of one type AND a value of another type at the same position
+        "unorderable_and_other": [(1j,), (2j,), ("label",)],
+        "opaque_and_other": [(o1,), (o2,), (7,)],
     }
     out = {k: [(*s, f"mod.fn{i}") for i, s in enumerate(v)] for k, v in fam.items()}
     # distinct scopes that print alike: the displays must still keep them apart
